@@ -34,3 +34,10 @@ Theorem C16_monotone : forall en en', subset en en' ->
   subset (get_cosmetic_option (Some (true, en'))) (get_cosmetic_option (Some (true, en))).
 Proof. exact monotone. Qed.
 Print Assumptions C16_monotone.
+
+(* text level: each of the 2^9 modifier subsets (bound stated in the theorem), written on an
+   exception rule and parsed by the model's NewNetworkRule, yields All minus the union of what
+   the named modifiers disable *)
+Theorem C16_text_subsets : forall mask, (mask < 512)%nat -> subset_ok mask = true.
+Proof. exact subsets_text_level. Qed.
+Print Assumptions C16_text_subsets.
